@@ -22,7 +22,7 @@ fn line(parts: Vec<Part>) -> Stmt {
 
 /// names of the slot items (index = alphabet position); `i` = slot index for unique labels
 pub const ITEM_NAMES: &[&str] = &[
-    "text", "asg", "print", "glue-end", "glue-start", "tag", "cond-inline", "seq", "cycle", "once", "if-block", "fcall-value", "fcall-text", "fstmt-text", "tunnel", "temp", "string", "choice-basic", "choice-bracket", "choice-label", "choice-cond", "choice-fallback", "choice-nested", "thread", "count-knot", "turns-since", "choice-count", "divert-k2-back", "fcall-nested", "tag-alone", "line-divert", "choice-inline-divert", "seq-block", "tunnel-onwards", "divert-args", "silent-pingpong", "cond-inline-spaces", "line-divert-tight",
+    "text", "asg", "print", "glue-end", "glue-start", "tag", "cond-inline", "seq", "cycle", "once", "if-block", "fcall-value", "fcall-text", "fstmt-text", "tunnel", "temp", "string", "choice-basic", "choice-bracket", "choice-label", "choice-cond", "choice-fallback", "choice-nested", "thread", "count-knot", "turns-since", "choice-count", "divert-k2-back", "fcall-nested", "tag-alone", "line-divert", "choice-inline-divert", "seq-block", "tunnel-onwards", "divert-args", "silent-pingpong", "cond-inline-spaces", "line-divert-tight", "choice-bracket-tight",
 ];
 
 pub fn item(a: usize, i: usize) -> Vec<Stmt> {
@@ -55,6 +55,15 @@ pub fn item(a: usize, i: usize) -> Vec<Stmt> {
             Stmt::Line { parts: vec![t("Going on "), p(x()), t(" ")], tags: vec![], divert: Some(Target::Label(lab("hop"))) },
             Stmt::Weave(Weave { choices: vec![], gather: Some(Gather { label: Some(lab("hop")), parts: vec![t("landed "), p(Expr::Count(lab("hop"))), t(".")] }) }),
         ],
+        // W2: offered = start + bracketed, printed = start + end, joined exactly as written
+        "choice-bracket-tight" => vec![Stmt::Weave(Weave {
+            choices: vec![
+                Choice { sticky: false, label: None, conds: vec![], start: vec![t("Hel")], only: vec![t("lo")], end: vec![t("p me")], fallback: false, body: vec![] },
+                Choice { sticky: false, label: None, conds: vec![], start: vec![t("X")], only: vec![], end: vec![t("Y")], fallback: false, body: vec![] },
+                Choice { sticky: true, label: None, conds: vec![], start: vec![t("\"What?")], only: vec![t("!\"")], end: vec![t("\" I said.")], fallback: false, body: vec![] },
+            ],
+            gather: Some(Gather { label: None, parts: vec![t("Tight done.")] }),
+        })],
         // blanks inside the braces of an inline conditional are part of the branch texts (L1b)
         "cond-inline-spaces" => vec![line(vec![t("Lift"), Part::Cond(Expr::bin(x(), BinOp::Gt, Expr::Int(0)), vec![t(" up high ")], vec![t(" a bit ")]), t("and stop "), Part::Cond(Expr::bin(x(), BinOp::Gt, Expr::Int(0)), vec![t("now ")], vec![]), t("here.")])],
         // no blank typed before the arrow: the text still ends in one (T1b)
@@ -985,7 +994,11 @@ const SH_GATHERS: usize = 3;
 fn sh_gather(g: usize, u: &str) -> Gather {
     match g {
         0 => Gather { label: None, parts: vec![t(&format!("Gather {u} ")), p(x()), t(".")] },
-        1 => Gather { label: Some(format!("og{u}")), parts: vec![t(&format!("Gather {u} ")), p(Expr::Count(format!("og{u}"))), t(".")] },
+        // (the first weave's label is called `loop`: an ordinary name that reads like a keyword)
+        1 => {
+            let lab = if u == "A" { "loop".to_string() } else { format!("og{u}") };
+            Gather { label: Some(lab.clone()), parts: vec![t(&format!("Gather {u} ")), p(Expr::Count(lab)), t(".")] }
+        }
         _ => Gather { label: None, parts: vec![] },
     }
 }
@@ -1045,5 +1058,13 @@ pub fn shape_nth(k: usize, mut idx: usize) -> (String, Program) {
     body.push(Stmt::Divert(Target::Knot("fin".into())));
     let (_, mut prog) = seg_nth(0, 1, 0);
     prog.knots[0].body = body;
+    (name, prog)
+}
+
+/// the same shapes written directly in the root of the story instead of in a knot
+pub fn shape_root_nth(k: usize, idx: usize) -> (String, Program) {
+    let (name, mut prog) = shape_nth(k, idx);
+    let body = std::mem::replace(&mut prog.knots[0].body, vec![Stmt::line("Main."), Stmt::Divert(Target::Knot("fin".into()))]);
+    prog.root = body;
     (name, prog)
 }
